@@ -36,6 +36,7 @@ for id in $ids; do
     git -C /repo checkout -- .
     git -C /repo clean -fdq -- internal cmd 2>/dev/null
     v=$(grep -c '^VIOLATION' out/selftest/$sid.seed.log)
+    { grep -v '^WARNING' out/selftest/$sid.seed.log; echo "check exit $rc"; } > $d/check_output.txt   # what the catch table in DESIGN.md is generated from
     if [ $rc -ne 1 ] || [ "$v" -eq 0 ]; then
       echo "SELFTEST FAIL: $sid must-fail change not reported (rc=$rc violations=$v)"; bad=1
     else
